@@ -578,18 +578,52 @@ mod v_iface_sixlowpan {
         }
     }
 
-    /// common tail: sizes, real compression over a stale buffer, octet-wise comparison with the template
-    fn check_compress(s: &Shape, f: &Fields, r802: &Ieee802154Repr, pkt: PacketV6, stale: &[u8; TL], iphc_len: usize) {
-        let mut t = [0u8; TL];
-        let lay = tmpl(s, f, &mut t);
-        let caps = ChecksumCapabilities::ignored();
-        let (total, comp, uncomp) = InterfaceInner::compressed_packet_size(&pkt, r802);
+    // NOTE (measured, decides the structure of the compress harnesses).  `IpPayload` is a niche-encoded enum: Kani
+    // models it as a union whose padding is nondet and writes the tag through a pointer cast, so for CBMC's symbolic
+    // execution the discriminant of a freshly built `IpPayload::Udp(..)` is never a constant, even when every member
+    // is concrete.  Every arm of `match &mut packet.payload` in `ipv6_to_sixlowpan` (all ICMPv6 / NDISC / MLD
+    // emitters, TCP options, with garbage lengths) is therefore encoded: 0.85-0.97 M steps and more than 6 GB for ANY
+    // call of that function, however concrete.  So:
+    //  * `Via::Parts` (quick tier): real `compressed_packet_size` for the sizes, then exactly the calls
+    //    `ipv6_to_sixlowpan` makes for this payload kind -- `SixlowpanIphcRepr::{buffer_len, emit}` built from the
+    //    same fields, `SixlowpanUdpNhcRepr::{header_len, emit}` / `Icmpv6Repr::emit` / `TcpRepr::emit` on the rest of
+    //    the buffer -- everything symbolic, all shapes;
+    //  * `Via::Whole` (thorough tier, 16 GB): the real `ipv6_to_sixlowpan` on one shape per payload kind, which shows
+    //    that its own slicing glue composes those calls the same way.
+    #[derive(Clone, Copy, PartialEq, Eq)]
+    enum Via {
+        Parts,
+        Whole,
+    }
+
+    fn check_sizes(s: &Shape, pkt: &PacketV6, r802: &Ieee802154Repr, lay: &Lay) {
+        let (total, comp, uncomp) = InterfaceInner::compressed_packet_size(pkt, r802);
         crate::vdump!("sizes total={} compressed_hdr={} uncompressed_hdr={} template len={} hdr={}", total, comp, uncomp, lay.len, lay.hdr);
         assert!(total == lay.len, "prop:c20_compressed_size_equals_template_length");
         assert!(comp == lay.hdr, "prop:c20_compressed_header_size");
         assert!(uncomp == if is_nhc(s) { 48 } else { 40 }, "prop:c20_uncompressed_header_size");
-        let mut buf = *stale;
-        InterfaceInner::ipv6_to_sixlowpan(&caps, pkt, r802, &mut buf[..lay.len]);
+    }
+
+    /// first statements of `ipv6_to_sixlowpan`: the IPHC header built from the IPv6 header and the 802.15.4 addresses
+    fn emit_iphc_part(s: &Shape, f: &Fields, r802: &Ieee802154Repr, buf: &mut [u8; TL], want: usize) {
+        let repr = SixlowpanIphcRepr {
+            src_addr: Ipv6Address::from_octets(f.src),
+            ll_src_addr: r802.src_addr,
+            dst_addr: Ipv6Address::from_octets(f.dst),
+            ll_dst_addr: r802.dst_addr,
+            next_header: if is_nhc(s) { SixlowpanNextHeader::Compressed } else { SixlowpanNextHeader::Uncompressed(IpProtocol::from(proto(s))) },
+            hop_limit: f.hl,
+            ecn: None,
+            dscp: None,
+            flow_label: None,
+        };
+        let n = repr.buffer_len();
+        crate::vdump!("IPHC buffer_len={} template={}", n, want);
+        assert!(n == want, "prop:c20_iphc_length_equals_template");
+        repr.emit(&mut SixlowpanIphcPacket::new_unchecked(&mut buf[..want]));
+    }
+
+    fn compare_with_template(s: &Shape, lay: &Lay, buf: &[u8; TL], t: &[u8; TL]) {
         crate::vdump!("GOT      {:02x?}\nTEMPLATE {:02x?}", &buf[..lay.len], &t[..lay.len]);
         let k = any_lt(TL);
         kani::assume(k < lay.len);
@@ -602,9 +636,13 @@ mod v_iface_sixlowpan {
                 // tx checksumming is off in this harness: the checksum value is left to the device
             } else if k > lay.nhc_at && k < lay.ck_at {
                 assert!(buf[k] == t[k], "prop:c20_compressed_udp_ports_equal_template");
+            } else if k < lay.nhc_at {
+                assert!(buf[k] == t[k], "prop:c20_compressed_iphc_equals_template");
             } else {
                 assert!(buf[k] == t[k], "prop:c20_compressed_bytes_equal_template");
             }
+        } else if k < lay.hdr {
+            assert!(buf[k] == t[k], "prop:c20_compressed_iphc_equals_template");
         } else {
             assert!(buf[k] == t[k], "prop:c20_compressed_bytes_equal_template");
         }
@@ -612,14 +650,6 @@ mod v_iface_sixlowpan {
         kani::cover!(k == 1, "second IPHC octet compared");
     }
 
-    // NOTE on what is symbolic in the compress harnesses.  `IpPayload` is a niche-encoded enum; Kani models it as a
-    // union, CBMC does not track union members separately, so as soon as ANY by-value member of the payload variant
-    // (ports, TCP fields, echo ident) is symbolic the discriminant is no longer a constant for symbolic execution and
-    // every arm of `match packet.payload` in `ipv6_to_sixlowpan` (all ICMPv6/NDISC/MLD emitters, TCP options, ...) is
-    // encoded with garbage lengths: 965 k steps, > 6 GB (measured).  Therefore the by-value members are concrete
-    // representatives here, everything else (all of `Ipv6Repr`, link-layer addresses, payload octets, stale buffer) is
-    // symbolic, and the port arithmetic is covered for ALL ports by `lowpan_nhc_udp_emit_ports*` on the real
-    // `SixlowpanUdpNhcRepr::{header_len, emit}` (which `ipv6_to_sixlowpan` calls with the ports unchanged).
     fn rep_ports(p: u8) -> (u16, u16) {
         match p {
             0 => (0x1234, 0xabcd),
@@ -629,36 +659,56 @@ mod v_iface_sixlowpan {
         }
     }
 
-    fn compress_udp(s: Shape) {
+    fn compress_udp(s: Shape, via: Via) {
         let mut f = any_fields(&s);
-        let (sp, dp) = rep_ports(s.up.p);
-        f.sport = sp;
-        f.dport = dp;
+        if via == Via::Whole {
+            let (sp, dp) = rep_ports(s.up.p);
+            f.sport = sp;
+            f.dport = dp;
+        }
         assume_sender_picks(&s, &f);
         let r802 = ieee_of(&s, &f);
+        let caps = ChecksumCapabilities::ignored();
         let stale: [u8; TL] = kani::any();
         let data: [u8; 4] = [f.up[0], f.up[1], f.up[2], f.up[3]];
+        let src = Ipv6Address::from_octets(f.src);
+        let dst = Ipv6Address::from_octets(f.dst);
+        let udp = UdpRepr { src_port: f.sport, dst_port: f.dport };
         let pkt = PacketV6 {
-            header: Ipv6Repr {
-                src_addr: Ipv6Address::from_octets(f.src),
-                dst_addr: Ipv6Address::from_octets(f.dst),
-                next_header: IpProtocol::Udp,
-                payload_len: 8 + s.plen,
-                hop_limit: f.hl,
-            },
-            payload: IpPayload::Udp(UdpRepr { src_port: sp, dst_port: dp }, &data[..s.plen]),
+            header: Ipv6Repr { src_addr: src, dst_addr: dst, next_header: IpProtocol::Udp, payload_len: 8 + s.plen, hop_limit: f.hl },
+            payload: IpPayload::Udp(udp, &data[..s.plen]),
         };
-        check_compress(&s, &f, &r802, pkt, &stale, 0);
+        let mut t = [0u8; TL];
+        let lay = tmpl(&s, &f, &mut t);
+        check_sizes(&s, &pkt, &r802, &lay);
+        let mut buf = stale;
+        match via {
+            Via::Whole => InterfaceInner::ipv6_to_sixlowpan(&caps, pkt, &r802, &mut buf[..lay.len]),
+            Via::Parts => {
+                emit_iphc_part(&s, &f, &r802, &mut buf, lay.nhc_at);
+                let u = SixlowpanUdpNhcRepr(udp);
+                assert!(u.header_len() == lay.hdr - lay.nhc_at, "prop:c20_udp_nhc_header_len");
+                u.emit(
+                    &mut SixlowpanUdpNhcPacket::new_unchecked(&mut buf[lay.nhc_at..lay.len]),
+                    &src,
+                    &dst,
+                    s.plen,
+                    |b| b.copy_from_slice(&data[..s.plen]),
+                    &caps,
+                );
+            }
+        }
+        compare_with_template(&s, &lay, &buf, &t);
     }
 
-    fn compress_icmp(s: Shape) {
+    fn compress_icmp(s: Shape, via: Via) {
         let mut f = any_fields(&s);
         assume_sender_picks(&s, &f);
         let r802 = ieee_of(&s, &f);
+        let caps = ChecksumCapabilities::ignored();
         let stale: [u8; TL] = kani::any();
         let data: [u8; 4] = kani::any();
-        let ident: u16 = 0x1234;
-        let seq_no: u16 = 0xabcd;
+        let (ident, seq_no): (u16, u16) = if via == Via::Whole { (0x1234, 0xabcd) } else { (kani::any(), kani::any()) };
         // RFC 4443 4.1: type 128, code 0, checksum (0: not computed with tx checksumming off), identifier, sequence number, data
         f.up = [0; 24];
         f.up[0] = 0x80;
@@ -667,23 +717,32 @@ mod v_iface_sixlowpan {
         f.up[6] = (seq_no >> 8) as u8;
         f.up[7] = seq_no as u8;
         f.up[8..12].copy_from_slice(&data);
+        let src = Ipv6Address::from_octets(f.src);
+        let dst = Ipv6Address::from_octets(f.dst);
+        let icmp = Icmpv6Repr::EchoRequest { ident, seq_no, data: &data[..s.plen] };
         let pkt = PacketV6 {
-            header: Ipv6Repr {
-                src_addr: Ipv6Address::from_octets(f.src),
-                dst_addr: Ipv6Address::from_octets(f.dst),
-                next_header: IpProtocol::Icmpv6,
-                payload_len: 8 + s.plen,
-                hop_limit: f.hl,
-            },
-            payload: IpPayload::Icmpv6(Icmpv6Repr::EchoRequest { ident, seq_no, data: &data[..s.plen] }),
+            header: Ipv6Repr { src_addr: src, dst_addr: dst, next_header: IpProtocol::Icmpv6, payload_len: 8 + s.plen, hop_limit: f.hl },
+            payload: IpPayload::Icmpv6(icmp),
         };
-        check_compress(&s, &f, &r802, pkt, &stale, 0);
+        let mut t = [0u8; TL];
+        let lay = tmpl(&s, &f, &mut t);
+        check_sizes(&s, &pkt, &r802, &lay);
+        let mut buf = stale;
+        match via {
+            Via::Whole => InterfaceInner::ipv6_to_sixlowpan(&caps, pkt, &r802, &mut buf[..lay.len]),
+            Via::Parts => {
+                emit_iphc_part(&s, &f, &r802, &mut buf, lay.hdr);
+                icmp.emit(&src, &dst, &mut Icmpv6Packet::new_unchecked(&mut buf[lay.hdr..lay.len]), &caps);
+            }
+        }
+        compare_with_template(&s, &lay, &buf, &t);
     }
 
-    fn compress_tcp(s: Shape) {
+    fn compress_tcp(s: Shape, via: Via) {
         let mut f = any_fields(&s);
         assume_sender_picks(&s, &f);
         let r802 = ieee_of(&s, &f);
+        let caps = ChecksumCapabilities::ignored();
         let stale: [u8; TL] = kani::any();
         let data: [u8; 4] = kani::any();
         let src = Ipv6Address::from_octets(f.src);
@@ -702,17 +761,27 @@ mod v_iface_sixlowpan {
             timestamp: None,
             payload: &data[..s.plen],
         };
-        // reference: the plain emission of the same segment (what `Packet::emit_payload` does on other media), over the
-        // same stale buffer contents
+        // reference for the TCP octets: the plain emission of the same segment (what `Packet::emit_payload` does on
+        // other media), over the same stale buffer contents; 6LoWPAN carries TCP verbatim
         let mut t = [0u8; TL];
         let hdr = tmpl(&s, &f, &mut t).hdr;
         f.up.copy_from_slice(&stale[hdr..hdr + 24]);
-        tcp.emit(&mut TcpPacket::new_unchecked(&mut f.up[..20 + s.plen]), &src.into(), &dst.into(), &ChecksumCapabilities::ignored());
+        tcp.emit(&mut TcpPacket::new_unchecked(&mut f.up[..20 + s.plen]), &src.into(), &dst.into(), &caps);
+        let lay = tmpl(&s, &f, &mut t);
         let pkt = PacketV6 {
             header: Ipv6Repr { src_addr: src, dst_addr: dst, next_header: IpProtocol::Tcp, payload_len: 20 + s.plen, hop_limit: f.hl },
             payload: IpPayload::Tcp(tcp),
         };
-        check_compress(&s, &f, &r802, pkt, &stale, 0);
+        check_sizes(&s, &pkt, &r802, &lay);
+        let mut buf = stale;
+        match via {
+            Via::Whole => InterfaceInner::ipv6_to_sixlowpan(&caps, pkt, &r802, &mut buf[..lay.len]),
+            Via::Parts => {
+                emit_iphc_part(&s, &f, &r802, &mut buf, lay.hdr);
+                tcp.emit(&mut TcpPacket::new_unchecked(&mut buf[lay.hdr..lay.len]), &src.into(), &dst.into(), &caps);
+            }
+        }
+        compare_with_template(&s, &lay, &buf, &t);
     }
 
     // ------------------------------------------------------------------ UDP NHC port/length arithmetic for ALL ports
@@ -890,25 +959,55 @@ mod v_iface_sixlowpan {
         assert!(buf[MAC + fh + (k - lo)] == c_byte(k, payload), "prop:c20_fragments_tile_the_compressed_datagram");
     }
 
-    fn frag_tx_case<const L: usize>(nfrag: usize) {
+    /// `Via::Whole`: the real `dispatch_ieee802154` produces FRAG1 and leaves the fragmenter state (heavy, see NOTE at
+    /// `Via`); `Via::Parts`: that state is written by the harness (and `Whole` asserts it is the state the real code
+    /// leaves); then the real `dispatch_ieee802154_frag` produces every FRAGN
+    fn frag_tx_case<const L: usize>(nfrag: usize, via: Via) {
         let hw: [u8; 8] = kani::any();
         let peer: [u8; 8] = kani::any();
         kani::assume(not_short_form(&hw) && not_short_form(&peer));
         lowpan_env!(dev, iface, hw);
         let Interface { inner, fragmenter, .. } = &mut iface;
         let payload: [u8; L] = kani::any();
-        let pkt = Packet::new_ipv6(
-            Ipv6Repr { src_addr: ll_ip(&hw), dst_addr: ll_ip(&peer), next_header: IpProtocol::Udp, payload_len: 8 + L, hop_limit: 64 },
-            IpPayload::Udp(UdpRepr { src_port: 0x1234, dst_port: 0xabcd }, &payload[..]),
-        );
         let total = FH + L;
         let tag = inner.tag;
         let seq0 = inner.sequence_no;
         let mut tx_a = TxState::<TXN>::new();
         let mut tx_b = TxState::<TXN>::new();
-        inner.dispatch_ieee802154(Ieee802154Address::Extended(peer), CapTx { st: &mut tx_a }, PacketMeta::default(), pkt, fragmenter);
-        assert!(tx_a.frames == 1, "prop:c20_first_fragment_sent");
-        check_frame(&tx_a.buf0, tx_a.len0, 0, 0, F1_LEN, tag, seq0, &hw, &peer, &payload);
+        match via {
+            Via::Whole => {
+                let pkt = Packet::new_ipv6(
+                    Ipv6Repr { src_addr: ll_ip(&hw), dst_addr: ll_ip(&peer), next_header: IpProtocol::Udp, payload_len: 8 + L, hop_limit: 64 },
+                    IpPayload::Udp(UdpRepr { src_port: 0x1234, dst_port: 0xabcd }, &payload[..]),
+                );
+                inner.dispatch_ieee802154(Ieee802154Address::Extended(peer), CapTx { st: &mut tx_a }, PacketMeta::default(), pkt, fragmenter);
+                assert!(tx_a.frames == 1, "prop:c20_first_fragment_sent");
+                check_frame(&tx_a.buf0, tx_a.len0, 0, 0, F1_LEN, tag, seq0, &hw, &peer, &payload);
+                // the state the FRAGN harnesses start from
+                assert!(fragmenter.packet_len == total && fragmenter.sent_bytes == F1_LEN, "prop:c20_fragmenter_state_after_first_fragment");
+                let sx = &fragmenter.sixlowpan;
+                assert!(sx.datagram_size as usize == 48 + L && sx.datagram_tag == tag && sx.datagram_offset == F1_LEN + DIFF && sx.fragn_size == FN_LEN, "prop:c20_fragmenter_state_after_first_fragment");
+                assert!(sx.ll_dst_addr == Ieee802154Address::Extended(peer) && sx.ll_src_addr == Ieee802154Address::Extended(hw), "prop:c20_fragmenter_state_after_first_fragment");
+                let k = any_lt(FH + L);
+                kani::assume(k != 7 && k != 8);
+                assert!(fragmenter.buffer[k] == c_byte(k, &payload), "prop:c20_fragmenter_holds_the_compressed_datagram");
+            }
+            Via::Parts => {
+                let ck: [u8; 2] = kani::any();
+                fragmenter.buffer[..FH].copy_from_slice(&[0x7e, 0x33, 0xf0, 0x12, 0x34, 0xab, 0xcd, ck[0], ck[1]]);
+                fragmenter.buffer[FH..FH + L].copy_from_slice(&payload);
+                fragmenter.packet_len = total;
+                fragmenter.sent_bytes = F1_LEN;
+                fragmenter.sixlowpan.datagram_size = (48 + L) as u16;
+                fragmenter.sixlowpan.datagram_tag = tag;
+                fragmenter.sixlowpan.datagram_offset = F1_LEN + DIFF;
+                fragmenter.sixlowpan.fragn_size = FN_LEN;
+                fragmenter.sixlowpan.ll_dst_addr = Ieee802154Address::Extended(peer);
+                fragmenter.sixlowpan.ll_src_addr = Ieee802154Address::Extended(hw);
+                inner.sequence_no = seq0.wrapping_add(1);
+                tx_a.frames = 1;
+            }
+        }
         assert!(!fragmenter.finished() && !fragmenter.is_empty(), "prop:c20_fragmenter_holds_the_rest");
         inner.dispatch_ieee802154_frag(CapTx { st: &mut tx_a }, fragmenter);
         let hi1 = if total < F1_LEN + FN_LEN { total } else { F1_LEN + FN_LEN };
@@ -1024,82 +1123,82 @@ mod v_iface_sixlowpan {
     const S_UDP_SHORT64: Shape = sh(0, Ll64, Short, Ll16, Short, nhc(0), 0);
     const S_ICMP_GE: Shape = sh(2, Full, Short, LlElided, Ext, ICMP, 1);
 
-    // @harness props=C20 cfg=KL tier=q to=900 mem=4 unwind=20 opts=nomem covers=2 funcs=InterfaceInner::compressed_packet_size;InterfaceInner::ipv6_to_sixlowpan;SixlowpanIphcRepr::buffer_len;SixlowpanIphcRepr::emit;SixlowpanUdpNhcRepr::header_len;SixlowpanUdpNhcRepr::emit bounds=shape_TF=11;_HLIM_64;_src/dst_fe80::IID_elided_from_extended_link_addresses;_UDP-NHC_both_ports_0xf0bX_(4+4_bits);_every_address,_link_address,_hop_limit,_payload_octet_and_the_stale_transmit_buffer_symbolic;_ports_one_representative_pair_of_the_class_(all_ports:_lowpan_nhc_udp_emit_ports*);_payload<=4_octets;_tx_checksumming_off
+    // @harness props=C20 cfg=KL tier=q to=900 mem=4 unwind=20 opts=nomem covers=2 funcs=InterfaceInner::compressed_packet_size;SixlowpanIphcRepr::buffer_len;SixlowpanIphcRepr::emit;SixlowpanUdpNhcRepr::header_len;SixlowpanUdpNhcRepr::emit bounds=shape_TF=11;_HLIM_64;_src/dst_fe80::IID_elided_from_extended_link_addresses;_UDP-NHC_both_ports_0xf0bX_(4+4_bits);_every_address,_link_address,_hop_limit,_payload_octet_and_the_stale_transmit_buffer_symbolic;_all_ports_of_the_class;_the_calls_ipv6_to_sixlowpan_makes_are_made_by_the_harness_(the_function_itself:_lowpan_compress_whole_*);_payload<=4_octets;_tx_checksumming_off
     #[kani::proof]
     pub(crate) fn lowpan_compress_udp_ports4() {
-        compress_udp(S_UDP4);
+        compress_udp(S_UDP4, Via::Parts);
     }
 
-    // @harness props=C20 cfg=KL tier=q to=900 mem=4 unwind=20 opts=nomem covers=2 funcs=InterfaceInner::compressed_packet_size;InterfaceInner::ipv6_to_sixlowpan;SixlowpanIphcRepr::buffer_len;SixlowpanIphcRepr::emit;SixlowpanUdpNhcRepr::header_len;SixlowpanUdpNhcRepr::emit bounds=shape_TF=11;_HLIM_64;_src_elided_(extended_link_address);_dst_any_global_128_bits_in-line;_UDP-NHC_both_ports_in_full;_every_address,_link_address,_hop_limit,_payload_octet_and_the_stale_transmit_buffer_symbolic;_ports_one_representative_pair_of_the_class_(all_ports:_lowpan_nhc_udp_emit_ports*);_payload<=4_octets;_tx_checksumming_off
+    // @harness props=C20 cfg=KL tier=q to=900 mem=4 unwind=20 opts=nomem covers=2 funcs=InterfaceInner::compressed_packet_size;SixlowpanIphcRepr::buffer_len;SixlowpanIphcRepr::emit;SixlowpanUdpNhcRepr::header_len;SixlowpanUdpNhcRepr::emit bounds=shape_TF=11;_HLIM_64;_src_elided_(extended_link_address);_dst_any_global_128_bits_in-line;_UDP-NHC_both_ports_in_full;_every_address,_link_address,_hop_limit,_payload_octet_and_the_stale_transmit_buffer_symbolic;_all_ports_of_the_class;_the_calls_ipv6_to_sixlowpan_makes_are_made_by_the_harness_(the_function_itself:_lowpan_compress_whole_*);_payload<=4_octets;_tx_checksumming_off
     #[kani::proof]
     pub(crate) fn lowpan_compress_udp_ports0() {
-        compress_udp(S_UDP0);
+        compress_udp(S_UDP0, Via::Parts);
     }
 
-    // @harness props=C20 cfg=KL tier=q to=900 mem=4 unwind=20 opts=nomem covers=2 funcs=InterfaceInner::compressed_packet_size;InterfaceInner::ipv6_to_sixlowpan;SixlowpanIphcRepr::buffer_len;SixlowpanIphcRepr::emit;SixlowpanUdpNhcRepr::header_len;SixlowpanUdpNhcRepr::emit bounds=shape_TF=11;_hop_limit_in-line;_src/dst_any_global_128_bits_in-line;_UDP-NHC_dst_port_0xf0XX;_every_address,_link_address,_hop_limit,_payload_octet_and_the_stale_transmit_buffer_symbolic;_ports_one_representative_pair_of_the_class_(all_ports:_lowpan_nhc_udp_emit_ports*);_payload<=4_octets;_tx_checksumming_off
+    // @harness props=C20 cfg=KL tier=q to=900 mem=4 unwind=20 opts=nomem covers=2 funcs=InterfaceInner::compressed_packet_size;SixlowpanIphcRepr::buffer_len;SixlowpanIphcRepr::emit;SixlowpanUdpNhcRepr::header_len;SixlowpanUdpNhcRepr::emit bounds=shape_TF=11;_hop_limit_in-line;_src/dst_any_global_128_bits_in-line;_UDP-NHC_dst_port_0xf0XX;_every_address,_link_address,_hop_limit,_payload_octet_and_the_stale_transmit_buffer_symbolic;_all_ports_of_the_class;_the_calls_ipv6_to_sixlowpan_makes_are_made_by_the_harness_(the_function_itself:_lowpan_compress_whole_*);_payload<=4_octets;_tx_checksumming_off
     #[kani::proof]
     pub(crate) fn lowpan_compress_udp_ports1() {
-        compress_udp(S_UDP1);
+        compress_udp(S_UDP1, Via::Parts);
     }
 
-    // @harness props=C20 cfg=KL tier=q to=900 mem=4 unwind=20 opts=nomem covers=2 funcs=InterfaceInner::compressed_packet_size;InterfaceInner::ipv6_to_sixlowpan;SixlowpanIphcRepr::buffer_len;SixlowpanIphcRepr::emit;SixlowpanUdpNhcRepr::header_len;SixlowpanUdpNhcRepr::emit bounds=shape_TF=11;_HLIM_255;_src/dst_fe80::/64_+_64_bits_in-line;_UDP-NHC_src_port_0xf0XX;_every_address,_link_address,_hop_limit,_payload_octet_and_the_stale_transmit_buffer_symbolic;_ports_one_representative_pair_of_the_class_(all_ports:_lowpan_nhc_udp_emit_ports*);_payload<=4_octets;_tx_checksumming_off
+    // @harness props=C20 cfg=KL tier=q to=900 mem=4 unwind=20 opts=nomem covers=2 funcs=InterfaceInner::compressed_packet_size;SixlowpanIphcRepr::buffer_len;SixlowpanIphcRepr::emit;SixlowpanUdpNhcRepr::header_len;SixlowpanUdpNhcRepr::emit bounds=shape_TF=11;_HLIM_255;_src/dst_fe80::/64_+_64_bits_in-line;_UDP-NHC_src_port_0xf0XX;_every_address,_link_address,_hop_limit,_payload_octet_and_the_stale_transmit_buffer_symbolic;_all_ports_of_the_class;_the_calls_ipv6_to_sixlowpan_makes_are_made_by_the_harness_(the_function_itself:_lowpan_compress_whole_*);_payload<=4_octets;_tx_checksumming_off
     #[kani::proof]
     pub(crate) fn lowpan_compress_udp_ports2() {
-        compress_udp(S_UDP2);
+        compress_udp(S_UDP2, Via::Parts);
     }
 
-    // @harness props=C20 cfg=KL tier=q to=900 mem=4 unwind=20 opts=nomem covers=2 funcs=InterfaceInner::compressed_packet_size;InterfaceInner::ipv6_to_sixlowpan;SixlowpanIphcRepr::buffer_len;SixlowpanIphcRepr::emit;Icmpv6Repr::emit bounds=shape_TF=11;_HLIM_1;_src_elided_from_short_link_address;_dst_fe80::ff:fe00:XXXX_16_bits_in-line;_ICMPv6_echo;_every_address,_link_address,_hop_limit,_payload_octet_and_the_stale_transmit_buffer_symbolic;_echo_ident/seq_concrete;_payload<=4_octets;_tx_checksumming_off
+    // @harness props=C20 cfg=KL tier=q to=900 mem=4 unwind=20 opts=nomem covers=2 funcs=InterfaceInner::compressed_packet_size;SixlowpanIphcRepr::buffer_len;SixlowpanIphcRepr::emit;Icmpv6Repr::emit bounds=shape_TF=11;_HLIM_1;_src_elided_from_short_link_address;_dst_fe80::ff:fe00:XXXX_16_bits_in-line;_ICMPv6_echo;_every_address,_link_address,_hop_limit,_payload_octet_and_the_stale_transmit_buffer_symbolic;_the_calls_ipv6_to_sixlowpan_makes_are_made_by_the_harness_(the_function_itself:_lowpan_compress_whole_*);_payload<=4_octets;_tx_checksumming_off
     #[kani::proof]
     pub(crate) fn lowpan_compress_icmp_short() {
-        compress_icmp(S_ICMP_SHORT);
+        compress_icmp(S_ICMP_SHORT, Via::Parts);
     }
 
-    // @harness props=C20 cfg=KL tier=q to=900 mem=4 unwind=20 opts=nomem covers=2 funcs=InterfaceInner::compressed_packet_size;InterfaceInner::ipv6_to_sixlowpan;SixlowpanIphcRepr::buffer_len;SixlowpanIphcRepr::emit;Icmpv6Repr::emit bounds=shape_TF=11;_HLIM_255;_src_unspecified_(SAC=1_SAM=00);_dst_ff02::XX_(M=1_DAM=11);_ICMPv6_echo;_every_address,_link_address,_hop_limit,_payload_octet_and_the_stale_transmit_buffer_symbolic;_echo_ident/seq_concrete;_payload<=4_octets;_tx_checksumming_off
+    // @harness props=C20 cfg=KL tier=q to=900 mem=4 unwind=20 opts=nomem covers=2 funcs=InterfaceInner::compressed_packet_size;SixlowpanIphcRepr::buffer_len;SixlowpanIphcRepr::emit;Icmpv6Repr::emit bounds=shape_TF=11;_HLIM_255;_src_unspecified_(SAC=1_SAM=00);_dst_ff02::XX_(M=1_DAM=11);_ICMPv6_echo;_every_address,_link_address,_hop_limit,_payload_octet_and_the_stale_transmit_buffer_symbolic;_the_calls_ipv6_to_sixlowpan_makes_are_made_by_the_harness_(the_function_itself:_lowpan_compress_whole_*);_payload<=4_octets;_tx_checksumming_off
     #[kani::proof]
     pub(crate) fn lowpan_compress_icmp_mc8() {
-        compress_icmp(S_ICMP_MC8);
+        compress_icmp(S_ICMP_MC8, Via::Parts);
     }
 
-    // @harness props=C20 cfg=KL tier=q to=900 mem=4 unwind=20 opts=nomem covers=2 funcs=InterfaceInner::compressed_packet_size;InterfaceInner::ipv6_to_sixlowpan;SixlowpanIphcRepr::buffer_len;SixlowpanIphcRepr::emit;Icmpv6Repr::emit bounds=shape_TF=11;_HLIM_64;_src_fe80::ff:fe00:XXXX_16_bits_in-line;_dst_ffXX::XX:XXXX_(M=1_DAM=10);_ICMPv6_echo;_every_address,_link_address,_hop_limit,_payload_octet_and_the_stale_transmit_buffer_symbolic;_echo_ident/seq_concrete;_payload<=4_octets;_tx_checksumming_off
+    // @harness props=C20 cfg=KL tier=q to=900 mem=4 unwind=20 opts=nomem covers=2 funcs=InterfaceInner::compressed_packet_size;SixlowpanIphcRepr::buffer_len;SixlowpanIphcRepr::emit;Icmpv6Repr::emit bounds=shape_TF=11;_HLIM_64;_src_fe80::ff:fe00:XXXX_16_bits_in-line;_dst_ffXX::XX:XXXX_(M=1_DAM=10);_ICMPv6_echo;_every_address,_link_address,_hop_limit,_payload_octet_and_the_stale_transmit_buffer_symbolic;_the_calls_ipv6_to_sixlowpan_makes_are_made_by_the_harness_(the_function_itself:_lowpan_compress_whole_*);_payload<=4_octets;_tx_checksumming_off
     #[kani::proof]
     pub(crate) fn lowpan_compress_icmp_mc32() {
-        compress_icmp(S_ICMP_MC32);
+        compress_icmp(S_ICMP_MC32, Via::Parts);
     }
 
-    // @harness props=C20 cfg=KL tier=q to=900 mem=4 unwind=20 opts=nomem covers=2 funcs=InterfaceInner::compressed_packet_size;InterfaceInner::ipv6_to_sixlowpan;SixlowpanIphcRepr::buffer_len;SixlowpanIphcRepr::emit;Icmpv6Repr::emit bounds=shape_TF=11;_HLIM_255;_src_any_global_in-line;_dst_ffXX::XX:XXXX:XXXX_(M=1_DAM=01,_e.g._solicited-node);_ICMPv6_echo_without_data;_every_address,_link_address,_hop_limit,_payload_octet_and_the_stale_transmit_buffer_symbolic;_echo_ident/seq_concrete;_payload<=4_octets;_tx_checksumming_off
+    // @harness props=C20 cfg=KL tier=q to=900 mem=4 unwind=20 opts=nomem covers=2 funcs=InterfaceInner::compressed_packet_size;SixlowpanIphcRepr::buffer_len;SixlowpanIphcRepr::emit;Icmpv6Repr::emit bounds=shape_TF=11;_HLIM_255;_src_any_global_in-line;_dst_ffXX::XX:XXXX:XXXX_(M=1_DAM=01,_e.g._solicited-node);_ICMPv6_echo_without_data;_every_address,_link_address,_hop_limit,_payload_octet_and_the_stale_transmit_buffer_symbolic;_the_calls_ipv6_to_sixlowpan_makes_are_made_by_the_harness_(the_function_itself:_lowpan_compress_whole_*);_payload<=4_octets;_tx_checksumming_off
     #[kani::proof]
     pub(crate) fn lowpan_compress_icmp_mc48() {
-        compress_icmp(S_ICMP_MC48);
+        compress_icmp(S_ICMP_MC48, Via::Parts);
     }
 
-    // @harness props=C20 cfg=KL tier=q to=900 mem=4 unwind=20 opts=nomem covers=2 funcs=InterfaceInner::compressed_packet_size;InterfaceInner::ipv6_to_sixlowpan;SixlowpanIphcRepr::buffer_len;SixlowpanIphcRepr::emit;SixlowpanUdpNhcRepr::header_len;SixlowpanUdpNhcRepr::emit bounds=shape_TF=11;_HLIM_64;_src_elided;_dst_any_other_multicast_address_128_bits_in-line_(M=1_DAM=00);_UDP-NHC_ports_in_full;_every_address,_link_address,_hop_limit,_payload_octet_and_the_stale_transmit_buffer_symbolic;_ports_one_representative_pair_of_the_class_(all_ports:_lowpan_nhc_udp_emit_ports*);_payload<=4_octets;_tx_checksumming_off
+    // @harness props=C20 cfg=KL tier=q to=900 mem=4 unwind=20 opts=nomem covers=2 funcs=InterfaceInner::compressed_packet_size;SixlowpanIphcRepr::buffer_len;SixlowpanIphcRepr::emit;SixlowpanUdpNhcRepr::header_len;SixlowpanUdpNhcRepr::emit bounds=shape_TF=11;_HLIM_64;_src_elided;_dst_any_other_multicast_address_128_bits_in-line_(M=1_DAM=00);_UDP-NHC_ports_in_full;_every_address,_link_address,_hop_limit,_payload_octet_and_the_stale_transmit_buffer_symbolic;_all_ports_of_the_class;_the_calls_ipv6_to_sixlowpan_makes_are_made_by_the_harness_(the_function_itself:_lowpan_compress_whole_*);_payload<=4_octets;_tx_checksumming_off
     #[kani::proof]
     pub(crate) fn lowpan_compress_udp_mcfull() {
-        compress_udp(S_UDP_MCFULL);
+        compress_udp(S_UDP_MCFULL, Via::Parts);
     }
 
-    // @harness props=C20 cfg=KL tier=q to=900 mem=4 unwind=20 opts=nomem covers=2 funcs=InterfaceInner::compressed_packet_size;InterfaceInner::ipv6_to_sixlowpan;SixlowpanIphcRepr::buffer_len;SixlowpanIphcRepr::emit;TcpRepr::emit bounds=shape_TF=11;_HLIM_64;_src/dst_any_global_in-line;_TCP_header_without_options_+_4_octets;_every_address,_link_address,_hop_limit,_payload_octet_and_the_stale_transmit_buffer_symbolic;_TCP_header_fields_concrete;_payload<=4_octets;_tx_checksumming_off
+    // @harness props=C20 cfg=KL tier=q to=900 mem=4 unwind=20 opts=nomem covers=2 funcs=InterfaceInner::compressed_packet_size;SixlowpanIphcRepr::buffer_len;SixlowpanIphcRepr::emit;TcpRepr::emit bounds=shape_TF=11;_HLIM_64;_src/dst_any_global_in-line;_TCP_header_without_options_+_4_octets;_every_address,_link_address,_hop_limit,_payload_octet_and_the_stale_transmit_buffer_symbolic;_TCP_header_fields_concrete;_the_calls_ipv6_to_sixlowpan_makes_are_made_by_the_harness_(the_function_itself:_lowpan_compress_whole_*);_payload<=4_octets;_tx_checksumming_off
     #[kani::proof]
     pub(crate) fn lowpan_compress_tcp_global() {
-        compress_tcp(S_TCP);
+        compress_tcp(S_TCP, Via::Parts);
     }
 
-    // @harness props=C20 cfg=KL tier=t to=900 mem=4 unwind=20 opts=nomem covers=2 funcs=InterfaceInner::compressed_packet_size;InterfaceInner::ipv6_to_sixlowpan;SixlowpanIphcRepr::buffer_len;SixlowpanIphcRepr::emit;TcpRepr::emit bounds=shape_TF=11;_HLIM_64;_src_elided_(extended),_dst_elided_(short_link_address);_TCP_+_2_octets;_every_address,_link_address,_hop_limit,_payload_octet_and_the_stale_transmit_buffer_symbolic;_TCP_header_fields_concrete;_payload<=4_octets;_tx_checksumming_off
+    // @harness props=C20 cfg=KL tier=t to=900 mem=4 unwind=20 opts=nomem covers=2 funcs=InterfaceInner::compressed_packet_size;SixlowpanIphcRepr::buffer_len;SixlowpanIphcRepr::emit;TcpRepr::emit bounds=shape_TF=11;_HLIM_64;_src_elided_(extended),_dst_elided_(short_link_address);_TCP_+_2_octets;_every_address,_link_address,_hop_limit,_payload_octet_and_the_stale_transmit_buffer_symbolic;_TCP_header_fields_concrete;_the_calls_ipv6_to_sixlowpan_makes_are_made_by_the_harness_(the_function_itself:_lowpan_compress_whole_*);_payload<=4_octets;_tx_checksumming_off
     #[kani::proof]
     pub(crate) fn lowpan_compress_tcp_ll() {
-        compress_tcp(S_TCP_LL);
+        compress_tcp(S_TCP_LL, Via::Parts);
     }
 
-    // @harness props=C20 cfg=KL tier=t to=900 mem=4 unwind=20 opts=nomem covers=2 funcs=InterfaceInner::compressed_packet_size;InterfaceInner::ipv6_to_sixlowpan;SixlowpanIphcRepr::buffer_len;SixlowpanIphcRepr::emit;SixlowpanUdpNhcRepr::header_len;SixlowpanUdpNhcRepr::emit bounds=shape_TF=11;_hop_limit_in-line;_src_fe80::/64+64_bits;_dst_16_bits_in-line;_short_link_addresses;_UDP_without_data;_every_address,_link_address,_hop_limit,_payload_octet_and_the_stale_transmit_buffer_symbolic;_ports_one_representative_pair_of_the_class_(all_ports:_lowpan_nhc_udp_emit_ports*);_payload<=4_octets;_tx_checksumming_off
+    // @harness props=C20 cfg=KL tier=t to=900 mem=4 unwind=20 opts=nomem covers=2 funcs=InterfaceInner::compressed_packet_size;SixlowpanIphcRepr::buffer_len;SixlowpanIphcRepr::emit;SixlowpanUdpNhcRepr::header_len;SixlowpanUdpNhcRepr::emit bounds=shape_TF=11;_hop_limit_in-line;_src_fe80::/64+64_bits;_dst_16_bits_in-line;_short_link_addresses;_UDP_without_data;_every_address,_link_address,_hop_limit,_payload_octet_and_the_stale_transmit_buffer_symbolic;_all_ports_of_the_class;_the_calls_ipv6_to_sixlowpan_makes_are_made_by_the_harness_(the_function_itself:_lowpan_compress_whole_*);_payload<=4_octets;_tx_checksumming_off
     #[kani::proof]
     pub(crate) fn lowpan_compress_udp_short_ll64() {
-        compress_udp(S_UDP_SHORT64);
+        compress_udp(S_UDP_SHORT64, Via::Parts);
     }
 
-    // @harness props=C20 cfg=KL tier=t to=900 mem=4 unwind=20 opts=nomem covers=2 funcs=InterfaceInner::compressed_packet_size;InterfaceInner::ipv6_to_sixlowpan;SixlowpanIphcRepr::buffer_len;SixlowpanIphcRepr::emit;Icmpv6Repr::emit bounds=shape_TF=11;_HLIM_64;_src_global_in-line;_dst_elided_from_extended_link_address;_ICMPv6_echo;_every_address,_link_address,_hop_limit,_payload_octet_and_the_stale_transmit_buffer_symbolic;_echo_ident/seq_concrete;_payload<=4_octets;_tx_checksumming_off
+    // @harness props=C20 cfg=KL tier=t to=900 mem=4 unwind=20 opts=nomem covers=2 funcs=InterfaceInner::compressed_packet_size;SixlowpanIphcRepr::buffer_len;SixlowpanIphcRepr::emit;Icmpv6Repr::emit bounds=shape_TF=11;_HLIM_64;_src_global_in-line;_dst_elided_from_extended_link_address;_ICMPv6_echo;_every_address,_link_address,_hop_limit,_payload_octet_and_the_stale_transmit_buffer_symbolic;_the_calls_ipv6_to_sixlowpan_makes_are_made_by_the_harness_(the_function_itself:_lowpan_compress_whole_*);_payload<=4_octets;_tx_checksumming_off
     #[kani::proof]
     pub(crate) fn lowpan_compress_icmp_global_elided() {
-        compress_icmp(S_ICMP_GE);
+        compress_icmp(S_ICMP_GE, Via::Parts);
     }
 
     // @harness props=C20 cfg=KL tier=q to=900 mem=4 unwind=20 opts=nomem covers=2 funcs=InterfaceInner::sixlowpan_to_ipv6;SixlowpanIphcRepr::parse;SixlowpanUnresolvedAddress::resolve;Ipv6Repr::emit;SixlowpanUdpNhcRepr::parse;UdpRepr::emit_header bounds=shape_TF=11;_HLIM_64;_src/dst_fe80::IID_elided_from_extended_link_addresses;_UDP-NHC_both_ports_0xf0bX_(4+4_bits);_every_field_value_symbolic;_all_ports_of_the_class_symbolic;_UDP_checksum_field_compared_in_lowpan_decompress_udp_checksum_kept;_payload<=4_octets;_output_buffer_64_octets_with_arbitrary_previous_contents
@@ -1253,6 +1352,25 @@ mod v_iface_sixlowpan {
         decompress_case(Shape { tf: 3, hlim: 3, cid: false, src: Ll16, dst: Mc48, sll: Ext, dll: Short, up: TCP, plen: 0 });
     }
 
+    // ---- the real `ipv6_to_sixlowpan` (see NOTE above `Via`): one shape per payload kind
+    // @harness props=C20 cfg=KL tier=t to=3600 mem=16 unwind=20 opts=nomem covers=2 funcs=InterfaceInner::compressed_packet_size;InterfaceInner::ipv6_to_sixlowpan bounds=shape_of_lowpan_compress_udp_ports4;_ports_0xf0b3/0xf0b9;_addresses,_payload_and_stale_buffer_symbolic
+    #[kani::proof]
+    pub(crate) fn lowpan_compress_whole_udp() {
+        compress_udp(S_UDP4, Via::Whole);
+    }
+
+    // @harness props=C20 cfg=KL tier=t to=3600 mem=16 unwind=20 opts=nomem covers=2 funcs=InterfaceInner::compressed_packet_size;InterfaceInner::ipv6_to_sixlowpan bounds=shape_of_lowpan_compress_icmp_short;_echo_ident/seq_concrete;_addresses,_data_and_stale_buffer_symbolic
+    #[kani::proof]
+    pub(crate) fn lowpan_compress_whole_icmp() {
+        compress_icmp(S_ICMP_SHORT, Via::Whole);
+    }
+
+    // @harness props=C20 cfg=KL tier=t to=3600 mem=16 unwind=20 opts=nomem covers=2 funcs=InterfaceInner::compressed_packet_size;InterfaceInner::ipv6_to_sixlowpan bounds=shape_of_lowpan_compress_tcp_global;_TCP_header_concrete;_addresses,_data_and_stale_buffer_symbolic
+    #[kani::proof]
+    pub(crate) fn lowpan_compress_whole_tcp() {
+        compress_tcp(S_TCP, Via::Whole);
+    }
+
     // @harness props=C20 cfg=KL tier=q to=600 mem=4 unwind=20 opts=nomem covers=2 funcs=SixlowpanUdpNhcRepr::header_len;SixlowpanUdpNhcRepr::emit;SixlowpanUdpNhcPacket::set_ports bounds=every_port_pair_of_the_class_(both_ports_outside_0xf0XX);_4_payload_octets;_stale_buffer_arbitrary;_tx_checksumming_off
     #[kani::proof]
     pub(crate) fn lowpan_nhc_udp_emit_ports0() {
@@ -1398,26 +1516,38 @@ mod v_iface_sixlowpan {
         free_case::<14>(0x79, 0x44);
     }
 
-    // ---- 4. fragmentation on transmit
-    // @harness props=C20 cfg=KL tier=q to=1500 mem=8 unwind=20 opts=nomem,fs256 covers=2 funcs=InterfaceInner::dispatch_ieee802154;InterfaceInner::dispatch_sixlowpan;InterfaceInner::dispatch_ieee802154_frag;InterfaceInner::dispatch_sixlowpan_frag;SixlowpanFragRepr::emit;Ieee802154Repr::emit bounds=UDP_datagram_with_96_symbolic_payload_octets_(one_octet_more_than_fits_one_frame):_2_frames;_extended_link_addresses_symbolic;_ports_concrete;_tx_checksumming_off
+    // ---- 4. fragmentation on transmit (FRAGN from the state FRAG1 leaves: quick; FRAG1 through the real dispatch: thorough)
+    // @harness props=C20 cfg=KL tier=q to=1500 mem=6 unwind=20 opts=nomem,fs256 covers=2 funcs=InterfaceInner::dispatch_ieee802154_frag;InterfaceInner::dispatch_sixlowpan_frag;SixlowpanFragRepr::emit;Ieee802154Repr::emit bounds=UDP_datagram_with_96_payload_octets_(one_more_than_fits_one_frame):_FRAG1_+_1_FRAGN_of_8_octets;_payload,_checksum_and_extended_link_addresses_symbolic;_fragmenter_state_after_FRAG1_written_by_the_harness_(asserted_for_the_real_code_in_lowpan_frag_tx_96)
+    #[kani::proof]
+    pub(crate) fn lowpan_fragn_tx_96() {
+        frag_tx_case::<96>(2, Via::Parts);
+    }
+
+    // @harness props=C20 cfg=KL tier=t to=1500 mem=6 unwind=20 opts=nomem,fs256 covers=2 funcs=InterfaceInner::dispatch_ieee802154_frag;InterfaceInner::dispatch_sixlowpan_frag;SixlowpanFragRepr::emit;Ieee802154Repr::emit bounds=UDP_datagram_with_184_payload_octets:_exactly_two_full_frames;_payload,_checksum_and_extended_link_addresses_symbolic;_fragmenter_state_after_FRAG1_written_by_the_harness_(asserted_for_the_real_code_in_lowpan_frag_tx_184)
+    #[kani::proof]
+    pub(crate) fn lowpan_fragn_tx_184() {
+        frag_tx_case::<184>(2, Via::Parts);
+    }
+
+    // @harness props=C20 cfg=KL tier=q to=1500 mem=6 unwind=20 opts=nomem,fs256 covers=2 funcs=InterfaceInner::dispatch_ieee802154_frag;InterfaceInner::dispatch_sixlowpan_frag;SixlowpanFragRepr::emit;Ieee802154Repr::emit bounds=UDP_datagram_with_185_payload_octets:_two_full_frames_+_1_octet_=_3_frames;_payload,_checksum_and_extended_link_addresses_symbolic;_fragmenter_state_after_FRAG1_written_by_the_harness_(asserted_for_the_real_code_in_lowpan_frag_tx_185)
+    #[kani::proof]
+    pub(crate) fn lowpan_fragn_tx_185() {
+        frag_tx_case::<185>(3, Via::Parts);
+    }
+
+    // @harness props=C20 cfg=KL tier=t to=3600 mem=16 unwind=20 opts=nomem,fs256 covers=2 funcs=InterfaceInner::dispatch_ieee802154;InterfaceInner::dispatch_sixlowpan;InterfaceInner::ipv6_to_sixlowpan;InterfaceInner::dispatch_ieee802154_frag;InterfaceInner::dispatch_sixlowpan_frag;SixlowpanFragRepr::emit;Ieee802154Repr::emit bounds=UDP_datagram_with_96_payload_octets:_2_frames;_real_first_dispatch_(FRAG1)_and_every_FRAGN;_ports_concrete;_payload_and_link_addresses_symbolic
     #[kani::proof]
     pub(crate) fn lowpan_frag_tx_96() {
-        frag_tx_case::<96>(2);
+        frag_tx_case::<96>(2, Via::Whole);
     }
 
-    // @harness props=C20 cfg=KL tier=t to=1800 mem=8 unwind=20 opts=nomem,fs256 covers=2 funcs=InterfaceInner::dispatch_ieee802154;InterfaceInner::dispatch_sixlowpan;InterfaceInner::dispatch_ieee802154_frag;InterfaceInner::dispatch_sixlowpan_frag;SixlowpanFragRepr::emit bounds=UDP_datagram_with_184_symbolic_payload_octets:_exactly_two_full_frames
-    #[kani::proof]
-    pub(crate) fn lowpan_frag_tx_184() {
-        frag_tx_case::<184>(2);
-    }
-
-    // @harness props=C20 cfg=KL tier=t to=1800 mem=8 unwind=20 opts=nomem,fs256 covers=2 funcs=InterfaceInner::dispatch_ieee802154;InterfaceInner::dispatch_sixlowpan;InterfaceInner::dispatch_ieee802154_frag;InterfaceInner::dispatch_sixlowpan_frag;SixlowpanFragRepr::emit bounds=UDP_datagram_with_185_symbolic_payload_octets:_two_full_frames_+_1_octet_=_3_frames
+    // @harness props=C20 cfg=KL tier=t to=3600 mem=16 unwind=20 opts=nomem,fs256 covers=2 funcs=InterfaceInner::dispatch_ieee802154;InterfaceInner::dispatch_sixlowpan;InterfaceInner::ipv6_to_sixlowpan;InterfaceInner::dispatch_ieee802154_frag;InterfaceInner::dispatch_sixlowpan_frag;SixlowpanFragRepr::emit;Ieee802154Repr::emit bounds=UDP_datagram_with_185_payload_octets:_3_frames;_real_first_dispatch_(FRAG1)_and_every_FRAGN;_ports_concrete;_payload_and_link_addresses_symbolic
     #[kani::proof]
     pub(crate) fn lowpan_frag_tx_185() {
-        frag_tx_case::<185>(3);
+        frag_tx_case::<185>(3, Via::Whole);
     }
 
-    // @harness props=C20 cfg=KL tier=q to=1500 mem=8 unwind=20 opts=nomem,fs256 covers=1 funcs=InterfaceInner::dispatch_ieee802154;InterfaceInner::dispatch_sixlowpan bounds=datagram_1:_185_payload_octets_(3_frames),_first_frame_sent;_then_datagram_2_(96_payload_octets,_also_oversized)_is_dispatched_with_the_same_fragmenter,_as_Interface::socket_egress_does_for_the_next_socket
+    // @harness props=C20 cfg=KL tier=t to=3600 mem=16 unwind=20 opts=nomem,fs256 covers=1 funcs=InterfaceInner::dispatch_ieee802154;InterfaceInner::dispatch_sixlowpan;InterfaceInner::ipv6_to_sixlowpan bounds=fragmenter_holds_datagram_1_(185_payload_octets,_FRAG1_sent,_97_octets_unsent:_state_written_by_the_harness);_then_datagram_2_(96_payload_octets,_also_oversized)_is_dispatched_with_the_same_fragmenter,_as_Interface::socket_egress_does_for_the_next_socket_in_the_same_poll
     #[kani::proof]
     pub(crate) fn lowpan_frag_busy() {
         let hw: [u8; 8] = kani::any();
@@ -1427,14 +1557,26 @@ mod v_iface_sixlowpan {
         let Interface { inner, fragmenter, .. } = &mut iface;
         let p1: [u8; 185] = kani::any();
         let p2: [u8; 96] = kani::any();
-        let hdr = |n: usize| Ipv6Repr { src_addr: ll_ip(&hw), dst_addr: ll_ip(&peer), next_header: IpProtocol::Udp, payload_len: 8 + n, hop_limit: 64 };
-        let udp = UdpRepr { src_port: 0x1234, dst_port: 0xabcd };
-        let mut tx_a = TxState::<TXN>::new();
+        let ck: [u8; 2] = kani::any();
         let tag1 = inner.tag;
-        inner.dispatch_ieee802154(Ieee802154Address::Extended(peer), CapTx { st: &mut tx_a }, PacketMeta::default(), Packet::new_ipv6(hdr(185), IpPayload::Udp(udp, &p1[..])), fragmenter);
-        kani::assume(tx_a.frames == 1 && fragmenter.packet_len == FH + 185 && fragmenter.sent_bytes == F1_LEN);
-        // datagram 1 still has 97 unsent octets in the fragmenter
-        inner.dispatch_ieee802154(Ieee802154Address::Extended(peer), CapTx { st: &mut tx_a }, PacketMeta::default(), Packet::new_ipv6(hdr(96), IpPayload::Udp(udp, &p2[..])), fragmenter);
+        // datagram 1 in progress
+        fragmenter.buffer[..FH].copy_from_slice(&[0x7e, 0x33, 0xf0, 0x12, 0x34, 0xab, 0xcd, ck[0], ck[1]]);
+        fragmenter.buffer[FH..FH + 185].copy_from_slice(&p1);
+        fragmenter.packet_len = FH + 185;
+        fragmenter.sent_bytes = F1_LEN;
+        fragmenter.sixlowpan.datagram_size = (48 + 185) as u16;
+        fragmenter.sixlowpan.datagram_tag = tag1;
+        fragmenter.sixlowpan.datagram_offset = F1_LEN + DIFF;
+        fragmenter.sixlowpan.fragn_size = FN_LEN;
+        fragmenter.sixlowpan.ll_dst_addr = Ieee802154Address::Extended(peer);
+        fragmenter.sixlowpan.ll_src_addr = Ieee802154Address::Extended(hw);
+        inner.tag = tag1.wrapping_add(1);
+        let mut tx_a = TxState::<TXN>::new();
+        let pkt2 = Packet::new_ipv6(
+            Ipv6Repr { src_addr: ll_ip(&hw), dst_addr: ll_ip(&peer), next_header: IpProtocol::Udp, payload_len: 8 + 96, hop_limit: 64 },
+            IpPayload::Udp(UdpRepr { src_port: 0x1234, dst_port: 0xabcd }, &p2[..]),
+        );
+        inner.dispatch_ieee802154(Ieee802154Address::Extended(peer), CapTx { st: &mut tx_a }, PacketMeta::default(), pkt2, fragmenter);
         crate::vdump!("after datagram 2: packet_len={} sent_bytes={} tag={:04x} (datagram 1: {} / {} / {:04x}), frames sent {}", fragmenter.packet_len, fragmenter.sent_bytes, fragmenter.sixlowpan.datagram_tag, FH + 185, F1_LEN, tag1, tx_a.frames);
         assert!(fragmenter.packet_len == FH + 185 && fragmenter.sent_bytes == F1_LEN, "prop:c20_busy_fragmenter_keeps_datagram_in_progress");
         assert!(fragmenter.sixlowpan.datagram_tag == tag1 && fragmenter.sixlowpan.datagram_size as usize == 48 + 185, "prop:c20_busy_fragmenter_keeps_datagram_in_progress");
